@@ -127,7 +127,30 @@ def run_r2(drv, prop, tier, args):
     tr = os.path.join(drv.ROOT, "target", f"{prop}.transcript.jsonl")
     if os.path.exists(tr):
         os.remove(tr)
-    rc = harness(drv, prop, tier, args, extra_args=["--transcript", tr])
+    extra = ["--transcript", tr]
+    if prop == "C02" and "--replay" not in args:
+        # the concurrent part first: whole sessions side by side under the schedule explorer, merged into the evidence
+        tdir, out = drv.build(guard_on=True, extra=["--bin", "sched"])
+        if tdir is None:
+            return fail_build(out)
+        spart = os.path.join(drv.ROOT, "target", "c02_sched_part.json")
+        if os.path.exists(spart):
+            os.remove(spart)
+        rc = drv.run([os.path.join(tdir, "release", "sched"), "C02", "--root", drv.ROOT, "--emit-part", spart] + args, cwd=drv.ROOT)
+        if rc != 0 or not os.path.exists(spart):
+            print("MACHINERY-ERROR the schedule explorer did not produce its C02 part", file=sys.stderr)
+            return 2
+        extra += ["--merge-part", spart]
+    if prop == "C02" and "--replay" in args:
+        try:
+            if json.load(open(args[args.index("--replay") + 1])).get("part", "").startswith("E3b-"):
+                tdir, out = drv.build(guard_on=True, extra=["--bin", "sched"])
+                if tdir is None:
+                    return fail_build(out)
+                return drv.run([os.path.join(tdir, "release", "sched"), "C02", "--root", drv.ROOT] + args, cwd=drv.ROOT)
+        except Exception:
+            pass
+    rc = harness(drv, prop, tier, args, extra_args=extra)
     if rc == 2 or "--replay" in args:
         return rc
     if not os.path.exists(tr):
